@@ -59,7 +59,8 @@ def _run(prog, chk):
         fn = prog.fn("KSI_Config_consolidate" + suffix, "net_ha.c")
         hap, rsp, upd = [p["n"] for p in fn.params]
         hvals = ["absent", lo, lo + 7] + ([hi] if hi is not None else [lo + 100000])
-        firsts = ["absent", lo + 3, lo + 400000000] if suffix == "CalendarLastTime" else [None]
+        # the OTHER calendar time consolidated so far is a dimension of both calendar tables precisely because it must not matter
+        firsts = ["absent", lo + 3, lo + 400000000] if suffix in ("CalendarLastTime", "CalendarFirstTime") else [None]
         for h, r, first in itertools.product(hvals, ["absent"] + reps(lo, hi), firsts):
             sets = []
 
@@ -86,6 +87,8 @@ def _run(prog, chk):
                   "KSI_Config_getCtx": lambda I, p, n, a: Ptr("ctx")}
             if suffix == "CalendarLastTime":
                 ov["KSI_Config_getCalendarFirstTime"] = getter("first")
+            if suffix == "CalendarFirstTime":
+                ov["KSI_Config_getCalendarLastTime"] = getter("first")
             inputs = {hap: Ptr("HA"), rsp: Ptr("RESP"), upd: Ptr("UPD"),
                       "hv->value": h if h != "absent" else TOP, "rv->value": r if r != "absent" else TOP,
                       "fv->value": first if first not in (None, "absent") else TOP}
@@ -93,7 +96,7 @@ def _run(prog, chk):
             I = Interp(fn, inputs=inputs, call_model=model, on_unknown="stop", prog=prog)
             paths = I.run()
             chk.paths += len(paths)
-            inst = "consolidate%s[have=%s,pushed=%s%s]" % (suffix, h, r, "" if first is None else ",first=%s" % first)
+            inst = "consolidate%s[have=%s,pushed=%s%s]" % (suffix, h, r, "" if first is None else ",%s=%s" % ("first" if suffix == "CalendarLastTime" else "last", first))
             if len(paths) != 1 or paths[0].undetermined or paths[0].reason != "exit":
                 raise AnalysisBroken("%s: evaluation not determined for %s: %s" % (fn.name, inst, [q.undetermined for q in paths][:1]))
             q = paths[0]
